@@ -498,6 +498,9 @@ funcload(struct func *f, struct type *t, struct lvalue lval)
 	struct qbetype qt;
 
 	switch (t->kind) {
+	case TYPEVOID:
+		/* a void expression such as *(void *)p has no value to load */
+		return NULL;
 	case TYPESTRUCT:
 	case TYPEUNION:
 	case TYPEARRAY:
